@@ -2,7 +2,9 @@ import TracklibVerif.Lemmas.Partition
 import TracklibVerif.Lemmas.PartitionArr
 import TracklibVerif.Lemmas.PartitionFront
 import TracklibVerif.Lemmas.PartitionTree
+import TracklibVerif.Lemmas.PartitionRound
 import Mathlib.Algebra.Order.Group.Int
+import Mathlib.Algebra.Order.Field.Rat
 set_option linter.unusedSectionVars false
 /-! # C12 — optimal partitioning returns a global optimum for the requested direction
 
@@ -141,6 +143,84 @@ theorem optimal_bracketed {β : Type} [Add β] [LinearOrder β]
       t.val C = (tables zero rows C 1).D 0 (rows - 2) ∧
       ∀ t' : Br, t'.WF → t'.lo = 0 → t'.hi = rows - 2 → t.val C ≥ t'.val C) :=
   ⟨bracketed_dir zero rows C 0 (dir_min_of_mono hmono) h, bracketed_dir zero rows C 1 (dir_max_of_mono hmono) h⟩
+
+/-- a bracketed sum computed with a rounded addition, against the exact summed cost of its chain -/
+theorem br_exact {F β : Type} [Add F] [Field β] [LinearOrder β] [IsStrictOrderedRing β]
+    (ι : F → β) (u : β) (hu : 0 ≤ u) (herr : ∀ a b : F, |ι (a + b) - (ι a + ι b)| ≤ u * |ι a + ι b|)
+    (C : Nat → Nat → F) (t : Br) (hwf : t.WF) (n : Nat) (hn : t.hi - t.lo ≤ n + 1) :
+    |ι (t.val C) - pathCost 0 (fun a b => ι (C a b)) t.chain| ≤
+      ((1 + u) ^ n - 1) * pathCost 0 (fun a b => |ι (C a b)|) t.chain := by
+  have hh : t.height ≤ n := by have := Br.height_lt_span t hwf; omega
+  obtain ⟨r1, e1, _, _, _, v1⟩ := br_chain_cost (fun a b => ι (C a b)) t hwf
+  obtain ⟨r2, e2, _, _, _, v2⟩ := br_chain_cost (fun a b => |ι (C a b)|) t hwf
+  have := (round_err ι u hu herr C t n hh).1
+  have hr : r1 = r2 := by
+    have := e1.symm.trans e2
+    simpa using this
+  subst hr
+  rw [e1, ← v1, ← v2]
+  exact this
+
+/-- **T2 `optimal_rounded`** — optimality up to rounding in the standard model of floating-point arithmetic. `F` is the
+set of machine numbers with its rounded addition `+` and its order, `ι : F → β` their exact values in an ordered field,
+with `ι` monotone, `+` monotone, and `|ι (a + b) − (ι a + ι b)| ≤ u · |ι a + ι b|` (IEEE doubles without NaN and without
+overflow: `u = 2⁻⁵³`; nothing is assumed about associativity). Then the EXACT summed cost of the list returned in MINIMIZE
+mode exceeds the exact summed cost of any other chain `π` by at most `ε · (Σ|cost| along the result + Σ|cost| along π)`
+with `ε = (1+u)^(N−2) − 1 ≈ (N−2)·u`; symmetrically for MAXIMIZE. This is the tolerance shape of the transfer check on
+doubles (there with the generous `ε = 10⁻⁹`). -/
+theorem optimal_rounded {F β : Type} [Add F] [LinearOrder F] [Field β] [LinearOrder β] [IsStrictOrderedRing β]
+    (ι : F → β) (u : β) (hu : 0 ≤ u)
+    (hι : ∀ a b : F, a ≤ b → ι a ≤ ι b)
+    (hmono : ∀ a b c d : F, a ≤ b → c ≤ d → a + c ≤ b + d)
+    (herr : ∀ a b : F, |ι (a + b) - (ι a + ι b)| ≤ u * |ι a + ι b|)
+    (zero : F) (rows : Nat) (C : Nat → Nat → F) (h : 3 ≤ rows)
+    (π : List Nat) (h0 : π.head? = some 0) (hN : π.getLast? = some (rows - 2)) (hinc : π.Pairwise (· < ·)) :
+    let c : Nat → Nat → β := fun a b => ι (C a b)
+    let ac : Nat → Nat → β := fun a b => |ι (C a b)|
+    let ε : β := (1 + u) ^ (rows - 3) - 1
+    pathCost 0 c (optimalPartition zero rows C 0) ≤
+      pathCost 0 c π + ε * (pathCost 0 ac (optimalPartition zero rows C 0) + pathCost 0 ac π) ∧
+    pathCost 0 c π ≤
+      pathCost 0 c (optimalPartition zero rows C 1) + ε * (pathCost 0 ac (optimalPartition zero rows C 1) + pathCost 0 ac π) := by
+  intro c ac ε
+  -- a bracketing of π
+  cases π with
+  | nil => cases h0
+  | cons a l =>
+    have ha : a = 0 := by simpa using h0
+    subst ha
+    have hl : l ≠ [] := by
+      intro hl; subst hl
+      simp at hN; omega
+    rw [lastOf_getLast?] at hN
+    have hlast : lastOf 0 l = rows - 2 := by simpa using hN
+    obtain ⟨w', lo', hi', ch'⟩ := combBr_spec l 0 hl ((inc_pairwise _).mpr hinc)
+    have b' := br_exact ι u hu herr C (combBr 0 l) w' (rows - 3) (by rw [hi', lo', hlast]; omega)
+    rw [ch'] at b'
+    have hb' := abs_le.mp b'
+    constructor
+    · obtain ⟨t, wf, lo, hi, ch, _, hopt⟩ := bracketed_dir zero rows C 0 (dir_min_of_mono hmono) h
+      have b := br_exact ι u hu herr C t wf (rows - 3) (by rw [hi, lo]; omega)
+      rw [ch] at b
+      have hb := abs_le.mp b
+      have hle := hι _ _ (hopt (combBr 0 l) w' lo' (by rw [hi', hlast]))
+      show pathCost 0 c (optimalPartition zero rows C 0) ≤
+        pathCost 0 c (0 :: l) + ε * (pathCost 0 ac (optimalPartition zero rows C 0) + pathCost 0 ac (0 :: l))
+      have e : ε * (pathCost 0 ac (optimalPartition zero rows C 0) + pathCost 0 ac (0 :: l)) =
+          ε * pathCost 0 ac (optimalPartition zero rows C 0) + ε * pathCost 0 ac (0 :: l) := by ring
+      rw [e]
+      linarith [hb.1, hb.2, hb'.1, hb'.2, hle]
+    · obtain ⟨t, wf, lo, hi, ch, _, hopt⟩ := bracketed_dir zero rows C 1 (dir_max_of_mono hmono) h
+      have b := br_exact ι u hu herr C t wf (rows - 3) (by rw [hi, lo]; omega)
+      rw [ch] at b
+      have hb := abs_le.mp b
+      have hle := hι _ _ (hopt (combBr 0 l) w' lo' (by rw [hi', hlast]))
+      show pathCost 0 c (0 :: l) ≤
+        pathCost 0 c (optimalPartition zero rows C 1) + ε * (pathCost 0 ac (optimalPartition zero rows C 1) + pathCost 0 ac (0 :: l))
+      have e : ε * (pathCost 0 ac (optimalPartition zero rows C 1) + pathCost 0 ac (0 :: l)) =
+          ε * pathCost 0 ac (optimalPartition zero rows C 1) + ε * pathCost 0 ac (0 :: l) := by ring
+      rw [e]
+      linarith [hb.1, hb.2, hb'.1, hb'.2, hle]
 
 /-! ## T3 — the front ends: matrix construction composed with `optimalPartition` -/
 
@@ -479,4 +559,14 @@ example : ∃ t : Br, t.WF ∧ t.chain = optimalPartition 0 5 exC 0 ∧
   exact ⟨t, wf, ch, hopt⟩
 example : (Br.node (.seg 0 1) (.node (.seg 1 2) (.seg 2 3))).WF ∧ (Br.node (.seg 0 1) (.node (.seg 1 2) (.seg 2 3))).chain = [0, 1, 2, 3]
     ∧ (Br.node (.seg 0 1) (.node (.seg 1 2) (.seg 2 3))).val exC = 3 := ⟨by simp [Br.WF, Br.hi, Br.lo], rfl, by decide⟩
+/-! `optimal_rounded`: its hypotheses are satisfiable (ℤ with its exact addition embedded in ℚ, any `u ≥ 0`; for doubles
+they are the standard model with `u = 2⁻⁵³`) -/
+example : pathCost 0 (fun a b => ((exC a b : Int) : Rat)) (optimalPartition 0 5 exC 0) ≤
+    pathCost 0 (fun a b => ((exC a b : Int) : Rat)) [0, 2, 3] +
+      ((1 + 1 / 2) ^ (5 - 3) - 1) * (pathCost 0 (fun a b => |((exC a b : Int) : Rat)|) (optimalPartition 0 5 exC 0) +
+        pathCost 0 (fun a b => |((exC a b : Int) : Rat)|) [0, 2, 3]) :=
+  (optimal_rounded (fun (a : Int) => (a : Rat)) (1 / 2) (by norm_num) (fun a b h => by exact_mod_cast h)
+    (fun a b c d h1 h2 => Int.add_le_add h1 h2)
+    (fun a b => by simp only [Int.cast_add, sub_self, abs_zero]; exact mul_nonneg (by norm_num) (abs_nonneg _))
+    0 5 exC (by omega) [0, 2, 3] rfl rfl (by decide)).1
 end TV.C12
